@@ -52,7 +52,11 @@ WPaths == [nodes |-> <<
   PNode(5, 0, "file", <<"a","r","c",".","t","a","r",".","G","Z">>, 1), PNode(6, 0, "file", <<"n","o","e","x","t">>, 0),
   PNode(7, 1, "file", <<"U","P",".","T","X","T">>, 2),           PNode(8, 1, "dir",  <<"d","e","e","p",".","d">>, 0),
   PNode(9, 8, "file", <<".","x",".","y">>, 5),                   PNode(10, 2, "file", <<"i","n",".","h","i","d","d","e","n">>, 0),
-  PNode(11, 0, "dir", <<"e","m","p","t","y">>, 0),               PNode(12, 8, "file", <<"w"," ","s","p",".","c">>, 0) >>]
+  PNode(11, 0, "dir", <<"e","m","p","t","y">>, 0),               PNode(12, 8, "file", <<"w"," ","s","p",".","c">>, 0),
+  \* links whose target lives in another directory, or nowhere: their own location is what dir / absdir decompose
+  PNode(13, 1, "symlink", <<"l","n","k">>, 0) @@ [target |-> 3, tstyle |-> "rel"],
+  PNode(14, 8, "symlink", <<"a","b","s","l">>, 0) @@ [target |-> 11, tstyle |-> "abs"],
+  PNode(15, 1, "symlink", <<"d","a","n","g">>, 0) @@ [target |-> -1, tstyle |-> "abs"] >>]
 
 (* ---- extension classes ---- *)
 AllExts == LET RECURSIVE Cat(_) Cat(i) == IF i > Len(Classes) THEN <<>> ELSE DefaultLists[Classes[i]] \o Cat(i + 1) IN Cat(1)
@@ -115,7 +119,7 @@ WOs == [nodes |-> <<
 Kinds == {"modes", "zipmodes", "paths", "extclass", "content", "osattrs"}
 Init == kind = "" /\ variant = "" /\ phase = "start"
 Choose == /\ phase = "start" /\ kind' \in Kinds
-          /\ variant' \in (IF kind' = "extclass" THEN {"default", "override"} ELSE {""})
+          /\ variant' \in (IF kind' = "extclass" THEN {"default", "override", "own-default-file"} ELSE {""})      \* (own-default-file: the complete configuration the program writes for a new user)
           /\ phase' = "done"
 Next == Choose
 Spec == Init /\ [][Next]_vars
@@ -139,7 +143,8 @@ Scenario == [prop |-> "C04", kind |-> kind, class |-> kind \o (IF variant = "" T
              lists |-> IF variant = "override" THEN [DefaultLists EXCEPT !.is_image = << <<".","f","o","o">> >>,
                                                                           !.is_archive = << <<".","z","i","p","x">>, <<".","g","z">> >>]
                        ELSE DefaultLists,
-             env |-> IF variant = "override" THEN [tz |-> "UTC", cwd |-> 0, config |-> OverrideCfg]
+             env |-> IF variant = "own-default-file" THEN [tz |-> "UTC", cwd |-> 0, config |-> [own_default |-> TRUE]]
+                     ELSE IF variant = "override" THEN [tz |-> "UTC", cwd |-> 0, config |-> OverrideCfg]
                      ELSE [tz |-> "UTC", cwd |-> 0, config |-> [debug |-> FALSE]],
              runs |-> << [tag |-> "q", ncols |-> Len(Cols), timeout |-> 60,
                           argv |-> << "select " \o JoinCols(Cols, 1) \o " from '.'" \o (IF kind = "zipmodes" THEN " archives" ELSE "") \o " into list" >>] >>]
